@@ -279,8 +279,10 @@ def genBin (fpy fnp : Sc → Sc → Option Sc) (objOK : Bool) (a b : NV) : Res :
   match a, b with
   | .unmod, _ => .ok .unmod
   | _, .unmod => .ok .unmod
-  | .undef, _ => .raised
-  | _, .undef => .raised
+  -- `:undefined` as an operand of a ufunc: TypeError in general, but not against an empty array:
+  -- left outside the model
+  | .undef, _ => .ok .unmod
+  | _, .undef => .ok .unmod
   | .obj xs, .obj ys => if objOK then objZip (elBin fpy fnp) xs ys else .ok .unmod
   | .obj xs, .sc s => if objOK then objZip (elBin fpy fnp) xs [.sc s] else .ok .unmod
   | .sc s, .obj ys => if objOK then objZip (elBin fpy fnp) [.sc s] ys else .ok .unmod
@@ -375,13 +377,32 @@ def isList : NV → Bool
   | .obj _ => true
   | _ => false
 
-/-- dyads.py `eval_dyad_divide` -/
+def isObj : NV → Bool
+  | .obj _ => true
+  | _ => false
+
+/-- some divisor element is zero -/
+def hasZero : NV → Bool
+  | .sc y => y.isZero
+  | .arr a => a.data.any Sc.isZero
+  | .obj ys => ys.any fun e => match e with
+    | .sc y => y.isZero
+    | .arr a => a.data.any Sc.isZero
+  | _ => false
+
+/-- dyads.py `eval_dyad_divide`.  Inside an object array a zero divisor raises ZeroDivisionError or
+    gives inf/nan depending on whether the two elements are Python numbers or numpy scalars, which the
+    values do not record: outside the model. -/
 def kgDivide (a b : NV) : Res :=
   match a, b with
   | .unmod, _ => .ok .unmod
   | _, .unmod => .ok .unmod
-  | a, .sc y => if !isList a && y.isZero then .ok .undef else genBin scDivPy scDivNp true a (.sc y)
-  | a, b => genBin scDivPy scDivNp true a b
+  | .undef, .sc y => if y.isZero then .ok .undef else .ok .unmod
+  | a, .sc y =>
+    if !isList a && y.isZero then .ok .undef
+    else if isObj a && y.isZero then .ok .unmod
+    else genBin scDivPy scDivNp true a (.sc y)
+  | a, b => if (isObj a || isObj b) && hasZero b then .ok .unmod else genBin scDivPy scDivNp true a b
 
 /-- dyads.py `eval_dyad_equal / less / more`: vec_fn2 over a broadcasting comparison, `*1` -/
 def kgCmp (op : COp) (a b : NV) : Res :=
@@ -413,7 +434,16 @@ def floatToI64 (x : Float) : Int :=
     let n := floatToIntExact (fTrunc x)
     if inRange n then n else minI64
 
-def intPow (a : Int) (b : Nat) : Int := wrap64 (a ^ b)
+/-- `a ^ e` modulo 2^64 by repeated squaring (`fuel` bounds the number of binary digits of `e`) -/
+def powMod : Nat → Int → Int → Nat → Int
+  | 0, _, acc, _ => acc
+  | fuel + 1, base, acc, e =>
+    if e = 0 then acc
+    else powMod fuel (base * base % 18446744073709551616)
+      (if e % 2 = 1 then acc * base % 18446744073709551616 else acc) (e / 2)
+
+/-- int64 power as numpy computes it (wraps) -/
+def intPow (a : Int) (b : Nat) : Int := wrap64 (powMod (b.log2 + 2) (a % 18446744073709551616) 1 b)
 
 def Sc.isNegInt : Sc → Bool
   | .int n => decide (n < 0)
@@ -472,7 +502,7 @@ def elNeg (f : Sc → Option Sc) (e : El) : Option El :=
     `vec_fn` builds a rank-2 object array, which is outside the model) -/
 def objStacks (xs : List El) : Bool :=
   match xs with
-  | .arr a0 :: _ => prod a0.shape != 0 && xs.all fun e => match e with
+  | .arr a0 :: _ => xs.all fun e => match e with
     | .arr a => a.shape == a0.shape
     | .sc _ => false
   | _ => false
@@ -667,7 +697,8 @@ def npCumFlat (op : AOp) (a : NV) : Res :=
 def pyPowOld (a b : NV) : Res :=
   match a, b with
   | .sc (.int x), .sc (.int y) =>
-    if y ≥ 0 then .ok (.sc (.int (x ^ y.toNat)))
+    if y > 4096 then .ok .unmod
+    else if y ≥ 0 then .ok (.sc (.int (x ^ y.toNat)))
     else if x = 0 then .raised
     else .ok (.sc (Sc.ofFloat (Float.pow (Float.ofInt x) (Float.ofInt y))))
   | .sc x, .sc y => .ok (.sc (Sc.ofFloat (Float.pow x.toFloat y.toFloat)))
@@ -695,7 +726,8 @@ def binSem (t : String × String × String) : Option (NV → NV → Res) :=
 
 /-- semantics of a unary template (prefix, suffix) -/
 def unSem (t : String × String) : Option (NV → Res) :=
-  if t = ("(-", ")") then some pyNeg
+  if t = ("_kg_negate(", ")") then some kgNegate
+  else if t = ("(-", ")") then some pyNeg
   else if t = ("np.add.reduce(", ", initial=None)") then some (npReduceInit .add)
   else if t = ("np.multiply.reduce(", ", initial=None)") then some (npReduceInit .mul)
   else if t = ("np.maximum.reduce(", ", initial=None)") then some (npReduceInit .max)
@@ -791,22 +823,22 @@ def findRef : List String → String → Option Nat
   | [], _ => none
   | x :: r, s => if x = s then some 0 else (findRef r s).map (· + 1)
 
-/-- compiler.py `_ast_to_ir`; `refs` is `var_refs` (position = parameter number), `admit` the
+/-- compiler.py `_ast_to_ir`; `refs` is `var_refs` (position = parameter number), `admits` the
     compile-time test on a variable (its current value's type, or nothing after the operand check
     moved to the call) -/
-def astToIR (admit : String → Bool) : Expr → List String → Option (IR × List String)
+def astToIR (admits : String → Bool) : Expr → List String → Option (IR × List String)
   | .lit v t, refs => some (.literal v t, refs)
   | .var s, refs =>
-    if admit s then
+    if admits s then
       match findRef refs s with
       | some i => some (.var i, refs)
       | none => some (.var refs.length, refs ++ [s])
     else none
   | .dyad op l r, refs =>
-    match astToIR admit l refs with
+    match astToIR admits l refs with
     | none => none
     | some (li, r1) =>
-      match astToIR admit r r1 with
+      match astToIR admits r r1 with
       | none => none
       | some (ri, r2) =>
         if op ∈ Tables.arithOps then some (.binop op li ri, r2)
@@ -814,19 +846,19 @@ def astToIR (admit : String → Bool) : Expr → List String → Option (IR × L
         else none
   | .monad op x, refs =>
     if op = Tables.negateOp then
-      match astToIR admit x refs with
+      match astToIR admits x refs with
       | some (xi, r1) => some (.negate xi, r1)
       | none => none
     else none
   | .over op x, refs =>
     if op ∈ Tables.reduceScanOps then
-      match astToIR admit x refs with
+      match astToIR admits x refs with
       | some (xi, r1) => some (.reduce op xi, r1)
       | none => none
     else none
   | .scan op x, refs =>
     if op ∈ Tables.reduceScanOps then
-      match astToIR admit x refs with
+      match astToIR admits x refs with
       | some (xi, r1) => some (.scan op xi, r1)
       | none => none
     else none
@@ -848,8 +880,8 @@ structure Compiled where
   varSyms : List String
 deriving DecidableEq, Repr
 
-def compile (T : BTables) (admit : String → Bool) (e : Expr) : Option Compiled :=
-  match astToIR admit e [] with
+def compile (T : BTables) (admits : String → Bool) (e : Expr) : Option Compiled :=
+  match astToIR admits e [] with
   | none => none
   | some (ir, refs) =>
     if Tables.requireVars && refs.isEmpty then none
@@ -963,17 +995,10 @@ def dyadAdm (op : String) (a b : NV) : Bool :=
   | some o, .sc x, .sc y => scInRange x && scInRange y && scInRange (scExact o x y)
   | _, _, _ => true
 
-/-- the admissibility condition of a monadic node -/
-def monadAdm (a : NV) : Bool :=
-  match a with
-  | .sc x => scInRange x && scInRange (scNegExact x)
-  | _ => true
-
 /-- the node's own scalar arithmetic stays inside int64 (Python integers are unbounded, numpy's
     are not) -/
 def admNode (env : Env) : Expr → Bool
   | .dyad op l r => dyadAdm op (resVal (Interp.eval env l)) (resVal (Interp.eval env r))
-  | .monad _ x => monadAdm (resVal (Interp.eval env x))
   | _ => true
 
 def vars : Expr → List String
@@ -992,8 +1017,8 @@ def admTree (env : Env) : Expr → Bool
   | .over op x => admNode env (.over op x) && admTree env x
   | .scan op x => admNode env (.scan op x) && admTree env x
 
-/-- `Adm e env`: every variable of `e` is bound and every scalar integer operation in `e` stays in
-    int64.  (Decidable: a `Bool`.) -/
+/-- `Adm e env`: every variable of `e` is bound and every `+ - *` between two scalars in `e` stays in
+    int64 (the only operations generated code still does with Python operators).  (Decidable: a `Bool`.) -/
 def Adm (env : Env) (e : Expr) : Bool :=
   (vars e).all (fun s => (env s).isSome) && admTree env e
 
@@ -1180,8 +1205,8 @@ def optHex (o : Option String) : String :=
 
 /-- requests
     * `src <backend> <IR>`                   -> `some:<hex of the source>` | `none`
-    * `ev <backend> <admit 0|1> <Expr> (env …)` -> `ir=… src=… params=… syms=… compiled=… interp=… sys=… adm=…`
-      (`admit`: whether the compile-time test admits the variables; compiled under the same bindings) -/
+    * `ev <backend> <admits 0|1> <Expr> (env …)` -> `ir=… src=… params=… syms=… compiled=… interp=… sys=… adm=…`
+      (`admits`: whether the compile-time test admits the variables; compiled under the same bindings) -/
 def handle (s : State) (ws : List String) : State × String :=
   match ws with
   | "src" :: b :: rest =>
@@ -1194,13 +1219,13 @@ def handle (s : State) (ws : List String) : State × String :=
        (match parseEnv r1 [] with
         | some (bs, []) =>
           let env := envOf bs
-          let admit : String → Bool := fun v => adm == "1" && (env v).isSome
-          let c := compile T admit e
-          let irs := match astToIR admit e [] with
+          let admits : String → Bool := fun v => adm == "1" && (env v).isSome
+          let c := compile T admits e
+          let irs := match astToIR admits e [] with
             | some (ir, _) => irWire ir
             | none => "none"
           let interp := Interp.eval env e
-          let memo : Expr → Option Compiled := fun x => compile T admit x
+          let memo : Expr → Option Compiled := fun x => compile T admits x
           let callOK : NV → Bool := fun _ => true
           let sys := Sys.top callOK memo env e
           let (src, params, syms, comp) := match c with
